@@ -104,3 +104,21 @@ def satisfiable(assumptions, timeout_ms=3000):
   s.set("timeout", timeout_ms)
   s.add(*assumptions)
   return str(s.check())
+
+
+def small_model(ob, length_terms, int_terms, timeout_ms=2500):
+  """After a `sat`: look for a counter-model with short sequences and small integers, which is
+  what a readable replay needs.  Returns a model or None (the original model is kept then)."""
+  for bound, ibound in ((2, 6), (3, 20), (6, 1000), (30, None)):
+    s = z3.Solver()
+    s.set("timeout", timeout_ms)
+    s.add(*ob.assumptions)
+    s.add(z3.Not(ob.goal))
+    for t in length_terms:
+      s.add(t <= bound)
+    if ibound is not None:
+      for t in int_terms:
+        s.add(z3.And(t >= -ibound, t <= ibound))
+    if s.check() == z3.sat:
+      return s.model()
+  return None
